@@ -187,6 +187,12 @@ type Machine struct {
 	access       map[raceKey]*accessRec
 	raceDetect    bool
 	noAdvanceNext bool
+	probeName     string
+	facts         map[string]bool
+	model         map[string]uint64
+	lastWitness   map[string]uint64
+	lastWitnessFor *smt.Term
+	witnessFor    map[int]map[string]uint64
 	sleepTokens   int
 	yeastN        int
 	rtypes        map[string]*Opaque
@@ -210,8 +216,38 @@ func (m *Machine) assume(c *smt.Term) {
 		m.end(endInfeasible, "assumed false")
 	}
 	m.pc = append(m.pc, c)
+	if c.Size() <= 40 {
+		if m.facts == nil {
+			m.facts = map[string]bool{}
+		}
+		m.facts[c.String()] = true
+	}
 	m.Sol.Assert(c)
 	m.Res.Symbolic = true
+	if m.model != nil && !m.holdsInModel(c) {
+		m.model = nil
+	}
+}
+
+// holdsInModel reports whether c evaluates to true under the cached model of the path condition.
+func (m *Machine) holdsInModel(c *smt.Term) bool {
+	if m.model == nil {
+		return false
+	}
+	v, ok := c.Eval(m.model, map[*smt.Term]uint64{})
+	return ok && v == 1
+}
+
+// inputVars lists the scalar symbolic inputs created so far.
+func (m *Machine) inputVars() []*smt.Term {
+	var vars []*smt.Term
+	for _, in := range m.inputs {
+		if in.Var != nil && in.Var.Sort.K != smt.KFP {
+			vars = append(vars, in.Var)
+		}
+		vars = append(vars, in.Vars...)
+	}
+	return vars
 }
 
 // feasible asks the solver whether PC ∧ c is satisfiable; Unknown counts as feasible.
@@ -222,9 +258,31 @@ func (m *Machine) feasible(c *smt.Term) bool {
 	if c.IsFalse() {
 		return false
 	}
-	r := m.Sol.Check(c)
+	if c.Size() <= 40 && m.facts != nil {
+		if m.facts[c.String()] {
+			m.Ex.noteModelHit()
+			return true
+		}
+		if m.facts[smt.Not(c).String()] {
+			m.Ex.noteModelHit()
+			return false
+		}
+	}
+	if m.holdsInModel(c) {
+		m.Ex.noteModelHit()
+		return true
+	}
+	vars := m.inputVars()
+	if len(vars) > 200 {
+		vars = nil
+	}
+	r, model := m.Sol.Model(c, vars)
 	if r == smt.Unknown {
 		m.Ex.noteUnknown("feasibility", m.Sol.LastErr)
+	}
+	if r == smt.Sat && vars != nil {
+		// remember the witness: if this option is the one taken, it is a model of the new path condition
+		m.lastWitness, m.lastWitnessFor = model, c
 	}
 	return r != smt.Unsat
 }
@@ -257,8 +315,15 @@ func (m *Machine) choose(n int, conds []*smt.Term, exhaustive bool, label string
 			feas = append(feas, i)
 			continue
 		}
+		m.lastWitness = nil
 		if m.feasible(conds[i]) {
 			feas = append(feas, i)
+			if m.lastWitness != nil {
+				if m.witnessFor == nil {
+					m.witnessFor = map[int]map[string]uint64{}
+				}
+				m.witnessFor[i] = m.lastWitness
+			}
 		}
 	}
 	if len(feas) == 0 {
@@ -272,8 +337,12 @@ func (m *Machine) choose(n int, conds []*smt.Term, exhaustive bool, label string
 	d := Decision{n, feas[0], label}
 	m.decisions = append(m.decisions, d)
 	if conds != nil && conds[d.Pick] != nil {
+		if w := m.witnessFor[d.Pick]; w != nil && !m.holdsInModel(conds[d.Pick]) {
+			m.model = w
+		}
 		m.assume(conds[d.Pick])
 	}
+	m.witnessFor = nil
 	return d.Pick
 }
 
@@ -288,23 +357,67 @@ func (m *Machine) branch(c *smt.Term, label string) bool {
 	return m.choose(2, []*smt.Term{c, smt.Not(c)}, true, label) == 0
 }
 
-// concretize forks over the feasible values of t within [lo,hi].
+// concretize forks over the feasible values of t within [lo,hi]. On a fresh decision the feasible values are
+// enumerated with solver models (one query per feasible value, not per candidate).
 func (m *Machine) concretize(t *smt.Term, lo, hi int64, label string) int64 {
 	if t.IsConst() {
 		return t.SInt()
 	}
-	n := int(hi - lo + 1)
-	if n <= 0 {
+	if hi < lo {
 		m.end(endInfeasible, "empty range at %s", label)
 	}
-	if n > 4096 {
-		panic(unsupported(fmt.Sprintf("concretize range too large (%d) at %s", n, label)))
+	w := t.Sort.W
+	if len(m.decisions) < len(m.prefix) {
+		d := m.prefix[len(m.decisions)]
+		m.decisions = append(m.decisions, d)
+		v := int64(d.Pick) + lo
+		m.assume(smt.Eq(t, smt.BV(w, uint64(v))))
+		return v
 	}
-	conds := make([]*smt.Term, n)
-	for i := 0; i < n; i++ {
-		conds[i] = smt.Eq(t, smt.BV(t.Sort.W, uint64(lo+int64(i))))
+	inRange := smt.And(smt.Sle(smt.BV(w, uint64(lo)), t), smt.Sle(t, smt.BV(w, uint64(hi))))
+	var vals []int64
+	excl := inRange
+	for {
+		r, model := m.Sol.Model(excl, []*smt.Term{m.probe(t)})
+		if r == smt.Unknown {
+			panic(unsupported("solver unknown while enumerating values at " + label))
+		}
+		if r == smt.Unsat {
+			break
+		}
+		pv := model[m.probeName]
+		v := smt.BV(w, pv).SInt()
+		vals = append(vals, v)
+		if len(vals) > 300 {
+			panic(unsupported(fmt.Sprintf("more than 300 feasible values at %s", label)))
+		}
+		excl = smt.And(excl, smt.Not(smt.Eq(t, smt.BV(w, uint64(v)))))
 	}
-	return lo + int64(m.choose(n, conds, false, label))
+	if len(vals) == 0 {
+		m.end(endInfeasible, "no feasible value at %s", label)
+	}
+	n := int(hi-lo) + 1
+	base := append([]Decision(nil), m.decisions...)
+	for _, v := range vals[1:] {
+		p := append(append([]Decision(nil), base...), Decision{n, int(v - lo), label})
+		m.Ex.push(p)
+	}
+	d := Decision{n, int(vals[0] - lo), label}
+	m.decisions = append(m.decisions, d)
+	m.assume(smt.Eq(t, smt.BV(w, uint64(vals[0]))))
+	return vals[0]
+}
+
+// probe defines a fresh variable equal to t so that its value can be read from a model.
+func (m *Machine) probe(t *smt.Term) *smt.Term {
+	if t.IsVar() {
+		m.probeName = t.Name
+		return t
+	}
+	v := m.freshVar("probe", t.Sort)
+	m.Sol.Assert(smt.Eq(v, t))
+	m.probeName = v.Name
+	return v
 }
 
 func (m *Machine) pos(ins ssa.Instruction) string {
